@@ -41,6 +41,10 @@ func genC03(g *G, n int, out io.Writer) {
 	for i := 0; i < n; i++ {
 		base := genC01Graph(g, i, true)
 		c := C03Case{Op: "c03", Id: i, Atoms: base.Atoms, Paths: base.Paths, Graph: base.Graph}
+		if i%40 == 13 {
+			// a report with hundreds of results in a level: severities, conforms and the header do not depend on how many there are
+			c.Graph = g.graph(140+g.n(200), 0.01)
+		}
 		c.ProfileName = g.pick([]string{"P", "warning", "info", "violation", "My Profile 1.0", "validations", "profile"})
 		if g.coin(0.4) {
 			// any text is a name: pieces from the hostile alphabet (quotes, escapes, separators, BMP and astral code points)
